@@ -98,6 +98,22 @@ fn finite_ctor(g: &mut Gen) -> Ex {
             let op = g.rng.pick(&["to", "til"]).to_string();
             Ex::Call(Box::new(var(&op)), vec![a, b])
         }
+        2 if g.rng.chance(1, 3) => {
+            // a step that is itself a big integer: few elements, far apart
+            let k = *g.rng.pick(&[62u32, 63, 64]);
+            let step = if g.rng.chance(1, 3) {
+                bin(int(0), "-", Ex::Num(NumLit::Pow2(k)))
+            } else if g.rng.chance(1, 2) {
+                bin(Ex::Num(NumLit::Pow2(k)), "-", int(1))
+            } else {
+                Ex::Num(NumLit::Pow2(k))
+            };
+            let neg = matches!(&step, Ex::Bin(a, _, _) if **a == int(0));
+            let far = bin(Ex::Num(NumLit::Pow2(k)), "*", int(g.rng.range(0, 3)));
+            let (a, b) = if neg { (far, int(g.rng.range(-2, 2))) } else { (int(g.rng.range(-2, 2)), far) };
+            let op = g.rng.pick(&["to", "til"]).to_string();
+            Ex::Call(Box::new(var(&op)), vec![a, b, step])
+        }
         2 | 3 => {
             let a = int(g.rng.range(-8, 8));
             let b = int(g.rng.range(-8, 8));
